@@ -492,6 +492,29 @@ def eval_C20(item):
     # the operator as implemented (faithful model eqD): it does not look at the other label map
     eqd = same_data and same_minv and compat
     res['tags'].append('spec=%s' % spec)
+    # the Lean model of the operator (eqD) and of the specification (eqSpec) on the same pair
+    from fractions import Fraction
+
+    def view(dd, oo, cc):
+        fb = cc['fb']
+        mv = dd.params['min_value']
+        f = Fraction(mv.item() if hasattr(mv, 'item') else mv) * (2 ** fb)
+        data = np.asarray(dd.data, dtype=float).ravel()
+        ks = ','.join('nan' if np.isnan(x) else str(int(Fraction(float(x)) * (2 ** fb))) for x in data)
+        return '%s@%s@%d/%d@%d@%d@%s' % (','.join(str(x) for x in np.asarray(dd.data).shape), ks or '-', f.numerator, f.denominator,
+                                        impl.to_k(dd.params['min_delta'], fb), int(dd.params['min_npix']),
+                                        ','.join(str(x) for x in oo['lmap']) or '-')
+    try:
+        ans = dict(l.split(' ', 1) for l in session.driver().ask('eq a=%s b=%s' % (view(d1, o1, case), view(d2, o2, c2))))
+        if 'eqd' in ans:
+            if bool(int(ans['eqd'])) != e12 or bool(int(ans['eqd_rev'])) != e21:
+                res['corr'].append('== gives %r / %r, the model of the operator (eqD) %s / %s' % (e12, e21, ans['eqd'], ans['eqd_rev']))
+            if bool(int(ans['eqspec'])) != spec:
+                res['corr'].append('specification computed by the harness %r, Lean eqSpec %s' % (spec, ans['eqspec']))
+        else:
+            res['corr'].append('model rejected the eq request: %r' % (ans,))
+    except impl.ImplError:
+        pass
     if e12 != spec:
         if e12 == eqd and e12 and not same_part:
             res['known'].append(('D10', '__eq__ compares the label map of self with itself: dendrograms on the same data and compatible '
